@@ -13,6 +13,14 @@ Tie.  Generated cases are driven through the real code and through the Gallina m
   elem    Edfa.__call__ / Multiband_amplifier.__call__ dispatch with Edfa.propagate replaced by a stamp on the
           per-channel latency array (which stage processed which channel)                   -> run_elem
   fpath   filter_si followed by the element loop on stand-in paths                          -> run_path
+  cts     carriers_to_spectral_information on random carrier dicts in random key order (column-wise model:
+          per-attribute lists from keys()/values(), argsort, re-indexing of every array)        -> run_cts
+  cols    create_arbitrary_spectral_information with list arguments of unequal length           -> run_cols
+  grid    create_input_spectral_information on random (f_min, f_max, spacing, baud) incl. float-awkward spacings,
+          f_max on / 1 Hz around a grid point, baud > spacing, spacing <= 0, f_max < f_min: channel count exactly,
+          frequencies to 1e-12; when float rounding of f_min + i*spacing decides the touching-slots test the
+          accept/reject verdict is not judged (counted: grid_float_rounding_not_judged)          -> run_grid
+  fcrg    find_common_range with default_design_bands (the way network.set_per_degree_design_band calls it) -> run_fcr_gen
   net     request.propagate on really designed single-band / multi-band / mixed networks (generated linear
           multi-OMS networks with random amplifier band edges, and the shipped multiband example): the arrays
           frequency / baud_rate / slot_width / label / tx_osnr / tx_power / delta_pdb / roll_off before and after
@@ -1690,7 +1698,7 @@ def run(ctx):
             ctx.count('mk_via_' + c['via'])
         ctx.count('outcome_' + outcome_key(line))
         nontriv = line.startswith(('E', 'F:E')) or ('kept' in obs and 0 < len(obs['kept']) < len(c['chs'])) or \
-            (c['kind'] in ('mk', 'mux', 'fcr', 'elem', 'demux') and len(line) > 2)
+            (c['kind'] in ('mk', 'mux', 'fcr', 'elem', 'demux', 'cts', 'cols', 'grid', 'fcrg') and len(line) > 2)
         ctx.case(pub, nontriv)
         for key, desc in oracle(c, line, obs):
             ctx.violation(key, desc, pub)
